@@ -156,12 +156,36 @@ func replayLibOne(rep *vx.Report, dict *vx.Dict, dir string, n int, cfg string, 
 		if !okS {
 			mm("schema", map[string]any{"got": fmt.Sprint(got), "want": ds.Schema, "round": round})
 		}
+		// the returned Schema is the caller's: overwrite it; GetSchema is asked again after the queries
+		for i := range got.Columns {
+			got.Columns[i].Name = "scribbled"
+			for j := range got.Columns[i].Values {
+				got.Columns[i].Values[j].Value = "by the caller"
+			}
+		}
 		for qi, q := range qs {
 			g := dict.ResOf(vx.Exec(idx, dict.ToQuery(q)))
 			rep.Steps++
 			if !g.Equal(ds.Res[qi]) {
 				mm("exec", map[string]any{"q": q, "want": ds.Res[qi], "got": g, "round": round})
 			}
+		}
+		again := idx.GetSchema()
+		okA := len(again.Columns) == len(want)
+		for i := 0; okA && i < len(again.Columns); i++ {
+			c := again.Columns[i]
+			if dict.ColRank(c.Name) != want[i].C || len(c.Values) != len(want[i].Vs) {
+				okA = false
+				break
+			}
+			for j, v := range c.Values {
+				if dict.ValRank(v.Value) != want[i].Vs[j] {
+					okA = false
+				}
+			}
+		}
+		if !okA {
+			mm("schema-second-call", map[string]any{"got": fmt.Sprint(again), "want": ds.Schema, "round": round})
 		}
 		idx.Close()
 	}
